@@ -12,7 +12,15 @@ def gen_items(r, depth=0, in_else=False):
     items = []
     for _ in range(r.randint(1, 5)):
         k = r.random()
-        if k < 0.35:
+        if k < 0.06:
+            # commands that change state other than text and cursor (registers), so that "nothing moved" != "nothing happened"
+            items.append(("m", r.choice(['"Ayiw', '"Ayl', '"ayiw', 'yl', '"Byw'])))
+        elif k < 0.10:
+            items.append(("m", r.choice(['$"ap', '"aP', 'p', '"bp'])))
+        elif k < 0.14 and depth < 3:
+            # a scope that never matches: only its --else branch runs
+            items.append(("g", True, "zzzz", [("m", "x")], [("c", None, r.choice(["0", "e", "$"]))]))
+        elif k < 0.35:
             items.append(("c", None, gen.passive_cmd(r)))
         elif k < 0.6:
             items.append(("m", gen.edit_cmd(r) if r.random() < 0.5 else gen.passive_cmd(r)))
